@@ -729,6 +729,9 @@ pub fn work_list(cfg: &RunCfg) -> WorkList {
     for w in corpus::capture_restore(cfg.prop != "C05").iter() {
         fixed.push(Item::new(w, "capture-restore"));
     }
+    for w in corpus::delegate_groups().iter() {
+        fixed.push(Item::new(w, "delegate-groups"));
+    }
     if cfg.prop != "C05" {
         for w in corpus::wide_cut().iter() {
             let mut it = Item::new(w, "wide-cut");
